@@ -177,7 +177,7 @@ func (cr *cursor) applyWordBoundaryRules(i int) (isWordBoundary, removePrevNoExt
 		isWordBoundary = false    // Rule WB7
 	} else if prev == ucd.WordBreakHebrew_Letter && current == ucd.WordBreakSingle_Quote {
 		isWordBoundary = false // Rule WB7a
-	} else if prevPrev == ucd.WordBreakHebrew_Letter && cr.prev == 0x0022 &&
+	} else if prevPrev == ucd.WordBreakHebrew_Letter && prev == ucd.WordBreakDouble_Quote &&
 		current == ucd.WordBreakHebrew_Letter {
 		removePrevNoExtend = true // Rule WB7b
 		isWordBoundary = false    // Rule WB7c
